@@ -31,6 +31,9 @@ pub const START: Joints = [0.0, 0.3, 0.3, 0.0, 0.5, 0.0];
 pub const GOAL: Joints = [1.2, 0.3, 0.3, 0.0, 0.5, 0.0];
 
 impl Scenario {
+    pub fn limits_history(&self) -> usize {
+        self.layout + 2 * self.limits + self.max_try + self.pair + (self.step * 100.0) as usize
+    }
     pub fn start(&self) -> Joints {
         match self.pair {
             1 => [0.02, 0.3, 0.3, 0.0, 0.5, 0.0],
@@ -297,7 +300,8 @@ fn explore_all(scs: &[(Scenario, usize, bool)]) -> Vec<Explored> {
         .iter()
         .map(|(s, _, _)| {
             let cell = scenario_cell(s);
-            (cell.robot(), cell.limits)
+            // the construction history of the limits rotates over the scenarios (a function of the scenario, so replays agree)
+            (crate::common::stack::with_forced_history(s.limits_history(), || cell.robot()), cell.limits)
         })
         .collect();
     let queue: Mutex<Vec<(usize, Vec<usize>)>> = Mutex::new((0..scs.len()).rev().map(|i| (i, vec![])).collect());
@@ -450,7 +454,7 @@ pub fn replay(case: &Value) -> Vec<String> {
         Some(k) => Some(k as usize),
     };
     let cell = scenario_cell(&s);
-    let robot = cell.robot();
+    let robot = crate::common::stack::with_forced_history(s.limits_history(), || cell.robot());
     let run = execute(&s, &robot, &cell.limits, &seq, cancel);
     judge(&s, &robot, &cell.limits, &run, cancel).into_iter().map(|(k, d)| format!("{k}: {d}")).collect()
 }
